@@ -132,6 +132,10 @@ pub async fn af_bigdrop(x: u64) -> BigDrop {
     BODY[14].fetch_add(1, Ordering::SeqCst);
     BigDrop::new(x | (1 << 40))
 }
+#[inline(never)]
+pub fn sync_helper() -> u32 {
+    std::hint::black_box(0x5E1F)
+}
 pub struct Svc {
     pub base: u32,
 }
@@ -489,6 +493,7 @@ pub fn run(ctx: &Ctx) {
     let mut fakes = 0u64;
     let mut thread_awaits = 0u64;
     let mut panic_exits = 0u64;
+    let mut unmet_exits = 0u64;
     let mut seen: Vec<std::collections::HashSet<u64>> = (0..NF).map(|_| std::collections::HashSet::new()).collect();
     let mut last_fresh = [0u64; NF];
     // an executor thread that keeps awaiting two never-faked async functions while fakes are installed
@@ -578,6 +583,12 @@ pub fn run(ctx: &Ctx) {
         'outer: for ops in &hist {
             let mut inj = ip::lib(InjectorPP::new);
             let mut model = [Src::Original; NF];
+            // one lifetime in five also carries a counted fake of an ordinary function that is never called:
+            // leaving the scope then panics inside the injector's own scope exit
+            let unmet = rng.chance(1, 5);
+            if unmet {
+                ip::lib(|| inj.when_called(injectorpp::func!(fn (sync_helper)() -> u32)).will_execute(injectorpp::fake!(func_type: fn() -> u32, returns: 1, times: 1)));
+            }
             for o in ops {
                 match o {
                     Op::Fake(i, v) => {
@@ -662,6 +673,11 @@ pub fn run(ctx: &Ctx) {
                     err = Some("injected panic did not propagate".into());
                     break 'outer;
                 }
+            } else if unmet {
+                // the scope is left normally but the injector's call-count verification panics
+                unmet_exits += 1;
+                // (whether it panics is C06's business; what is judged here is what the async functions do afterwards)
+                let _ = std::panic::catch_unwind(std::panic::AssertUnwindSafe(|| ip::lib(|| drop(inj))));
             } else {
                 ip::lib(|| drop(inj));
             }
@@ -706,5 +722,5 @@ pub fn run(ctx: &Ctx) {
     if bg_bad.load(Ordering::SeqCst) > 0 {
         out::outcome(2_000_000_000 + ctx.shard, "background-executor-thread", Verdict::Violated, "other-async-function-affected-on-another-executor-thread", &J::new().n("bad_awaits", bg_bad.load(Ordering::SeqCst)));
     }
-    out::summary(&J::new().n("awaits_by_the_background_executor_thread", bg_awaits.load(Ordering::SeqCst)).n("awaits_checked", awaits).n("fakes_installed", fakes).n("awaits_on_executor_threads", thread_awaits).n("lifetimes_ended_by_unwinding", panic_exits).n("async_functions", NF));
+    out::summary(&J::new().n("awaits_by_the_background_executor_thread", bg_awaits.load(Ordering::SeqCst)).n("awaits_checked", awaits).n("fakes_installed", fakes).n("awaits_on_executor_threads", thread_awaits).n("lifetimes_ended_by_unwinding", panic_exits).n("lifetimes_ended_by_a_failed_call_count_verification", unmet_exits).n("async_functions", NF));
 }
